@@ -17,21 +17,35 @@ TECHNIQUE = ("Coq proof over the reals: algebraic / exp-ln identities about the 
              "hand-transcribed distribution formulas; correspondence of every model with the real functions; numeric "
              "quadrature of the implementation's densities as a test for the improper-integral sub-claims")
 LEVEL_TEXT = ("Machine-checked proofs (Coq reals) that: every shipped matching extrapolation/interpolation pair round-trips "
-              "(stated about the kernels re-translated from the source on every run), linear interpolation stays between and "
-              "at the ends equals the brackets; the isi pipeline (pad/nonzero/split/pad_sequence/diff) equals the list of "
-              "successive spike-time differences padded with NaN and re-integrates to the spike times, for every raster; the "
-              "Victor-Purpura grid computation equals the recursive edit distance = minimum cost over edit scripts, and is "
-              "non-negative, within |n-m|..n+m, equal to the documented limits at cost 0 and inf, symmetric, zero exactly on "
-              "equal trains (finite positive cost) and satisfies the triangle inequality; for Normal/LogNormal/Poisson: "
-              "exp(log-density)=density, log-cdf=log(cdf), density = derivative of the cdf (so it integrates to cdf differences), "
-              "cdf limits 0/1, moment antiderivatives, mean/variance parameter round trips, Poisson pmf/mean/variance as "
-              "convergent series and cdf = partial sum of the pmf.")
+              "(stated about the kernels re-translated from the source on every run; side conditions are only the divisions "
+              "actually performed), linear interpolation stays between and at the ends equals the brackets; the isi pipeline "
+              "(pad/nonzero/split/pad_sequence/diff, both layouts) equals the list of successive spike-time differences padded "
+              "with NaN and re-integrates to the spike times, for every raster; the Victor-Purpura grid computation equals the "
+              "recursive edit distance = minimum cost over edit scripts, and is non-negative, within |n-m|..n+m, equal to the "
+              "documented limits at cost 0 and inf (so the scalar shortcuts agree with the dynamic programme), symmetric, zero "
+              "exactly on equal trains (finite positive cost), monotone in the cost and satisfies the triangle inequality; for "
+              "Normal/LogNormal/Poisson: exp(log-density)=density, log-cdf=log(cdf), density = derivative of the cdf and "
+              "integrates to cdf differences, cdf limits and total mass one, first/second moments equal the stated mean/variance "
+              "(antiderivatives + limits; Poisson as convergent series, cdf = partial sum of the pmf), mean/variance parameter "
+              "round trips in both directions.")
 LEVEL_NOTE = ("Trusted: Coq kernel + stdlib real axioms; translator for the 14 interp/extrap kernels; the hand-transcribed models "
               "of isi, victor_purpura_pair_dist and inferno.stats formulas (C20/Model.v) validated by correspondence only; "
-              "special functions enter the theorems through their defining facts (erf' = 2/sqrt(pi) exp(-x^2), erf -> +-1, "
-              "lgamma(k+1) = ln k!, gammaincc(a, x) = e^-x sum_{j<a} x^j/j! for integer a). NOT proved: the improper moment "
-              "integrals of Normal/LogNormal as limits (the finite-interval antiderivative identities are proved; the limits are "
-              "checked by quadrature on the implementation - a numeric test); float rounding.")
+              "special functions enter the theorems through their defining facts, as hypotheses (erf' = 2/sqrt(pi) exp(-x^2) - a "
+              "function with this derivative is exhibited in nonvacuous.v; erf(+-inf) = +-1, i.e. the Gaussian integral, is assumed "
+              "and NOT derived) or built into the model (lgamma(k+1) = ln k!, gammaincc(a, x) = e^-x sum_{j<a} x^j/j! for integer a). "
+              "Deviation from the property text, proved: at cost = inf d(a,a) = 2|a| (documented in the docstring), at cost 0 the "
+              "distance is a pseudo-metric. NOT proved: float rounding; non-integer Poisson support in pmf; the quadrature / series "
+              "sums run on the implementation are a numeric test only.")
+TRUSTED = ["C20/Model.v: hand transcription of inferno/core/math.py:255-402 (isi, victor_purpura_pair_dist) and "
+           "inferno/stats/distributions.py:12-707, tied to the code by the correspondence check only",
+           "special functions: torch.special.erf, torch.lgamma, torch.special.gammaincc, torch.special.xlogy, expm1 are given "
+           "their mathematical meaning (float instance: series implementations in C20/ModelExec.v, compared at 1e-9)"]
+ASSUMES = ["erf has derivative 2/sqrt(pi) exp(-z^2) (hypothesis of the calculus theorems; satisfiable: nonvacuous.v)",
+           "erf tends to +-1 at +-infinity (hypothesis of the total-mass / moment-limit theorems; not derived in Coq)",
+           "gammaincc(a, x) = exp(-x) sum_{j<a} x^j/j! for integer a >= 1 (DLMF 8.4.10), lgamma(k+1) = ln(k!)"]
+EXPLANATION = ("interp/extrap theorems are about Gen/*.v (re-translated each run); isi / Victor-Purpura / stats theorems are about "
+               "C20/Model.v and refine it to the independent specifications in C20/Spec.v; the harness runs Model.v in binary64 "
+               "inside Coq against the real functions and evaluates the property's laws directly on the implementation.")
 HEADER = ("From Coq Require Import List ZArith Bool PrimFloat.\n"
           "From Inferno Require Import Base.NumF C20.Model C20.ModelExec.\n"
           "Import ListNotations.\nOpen Scope float_scope.\n")
